@@ -458,7 +458,32 @@ def tree_model(rng):
         commits.append(c)
     m.commits = commits
     m.tags = []
+    if rng.random() < 0.15:
+        add_big_runs(rng, m, pool)
     return m
+
+
+def add_big_runs(rng, m, pool):
+    """Runs of consecutive objects of 33-70 KB in the streams of the object readers: a chain of commits with long messages,
+    a directory whose subdirectories are all big trees, a chain of tags with long messages; every one of them with a
+    distinct size, number of entries, so that a mix-up of two of them shows in the maxima and their witnesses."""
+    blobs = [pool.new_blob(k + 1) for k in range(6)]
+    subs = []
+    for k in range(rng.choice([3, 4, 6])):
+        n = 700 + 37 * k
+        subs.append(G.Entry(G.TREE, b"big%d" % k, G.Tree([G.Entry(G.FILE, b"some-long-file-name-%05d-%d.txt" % (j, k), blobs[(j + k) % 6])
+                                                          for j in range(n)])))
+    top = G.Tree(subs + [G.Entry(G.FILE, b"README", pool.new_blob(10))])
+    prev = None
+    for k in range(rng.choice([3, 5])):
+        prev = G.Commit(top if k == 0 else pool.tree(), [prev] if prev else [], cts=1250000000 + k,
+                        msg=b"long message %d\n" % k + b"x" * (34000 + 3001 * k) + b"\n")
+    m.refs["refs/heads/bigruns"] = prev
+    t = prev
+    for k in range(rng.choice([0, 3])):
+        t = G.Tag(t, name=b"bigtag%d" % k, msg=b"t" * (40000 + 1500 * k) + b"\n")
+    if t is not prev:
+        m.refs["refs/tags/bigtags"] = t
 
 
 def roots_model(rng):
@@ -485,6 +510,8 @@ def roots_model(rng):
         ps = [G.Commit(t, [], cts=1200000000 + i, msg=b"arm %d\n" % i) for i in range(k)]
         m.refs[rng.choice(["refs/heads/octopus", "refs/tags/octopus", "refs/remotes/origin/octopus"])] = \
             G.Commit(t, ps, cts=1300000000, msg=b"octopus\n")
+    if rng.random() < 0.3:
+        add_big_runs(rng, m, pool)
     # branch and tag with the same short name
     if m.commits and rng.random() < 0.3:
         m.refs["refs/heads/same"] = m.commits[0]
@@ -563,6 +590,13 @@ def one_run(spec, rng, res, model, gitdir, d, sel, roots):
                               "chunk_ms": rng.choice([120, 180, 250]), "max_ms": rng.choice([300, 600, 900])})
         plan = R.make_plan(pdir, rules)
         res["stalled_runs"] = res.get("stalled_runs", 0) + 1
+    if plan is None and spec.get("shimdir") and rng.random() < 0.12:
+        # children that hold their whole output back and deliver it in one piece at the end
+        pdir = os.path.join(d, "burst%d" % res["runs"])
+        sigs = rng.sample(["cat-file --batch", "cat-file --batch", "cat-file --batch-check", "rev-list", "for-each-ref"], rng.randint(1, 3))
+        plan = R.make_plan(pdir, [{"sig": sg, "ord": -1, "mode": "burst"} for sg in set(sigs)])
+        amb["GOMAXPROCS"] = rng.choice(["1", "1", "2", "16"])
+        res["burst_runs"] = res.get("burst_runs", 0) + 1
     cut_refs = False
     if plan is None and spec.get("shimdir") and names == "full" and rng.random() < spec.get("cut_refs", 0.0):
         pdir = os.path.join(d, "cplan%d" % res["runs"])
